@@ -619,6 +619,10 @@ func genLed(g *Gen) {
 	genCodecInto(g) // byte-level tie of the bucket codecs (engine codec), part of C01 / C09 / C10
 	nHist := g.Scale(120, 4000)
 	for h := 0; h < nHist || (!g.Covered() && h < 6*nHist); h++ {
+		if h%12 == 7 && (g.Prop == "C10" || g.Prop == "C01") { // stale wallet, same block-file offsets (gen_stale_same.go)
+			genStaleSame(g)
+			continue
+		}
 		l := newLedGen(g, "led")
 		l.start(1 + g.Rng.Intn(3))
 		steps := 12 + g.Rng.Intn(g.Scale(30, 70))
